@@ -67,7 +67,7 @@ ASSUMPTIONS = [
 
 def plan(tier: str) -> dict:
     if tier == "thorough":
-        return {"shards": 16, "examples": 700, "max_leaves": 3000,
+        return {"shards": 16, "examples": 1000, "max_leaves": 3000,
                 "n_random": 200, "compiled_every": 10}
     return {"shards": 16, "examples": 90, "max_leaves": 300, "n_random": 40,
             "compiled_every": 15}
@@ -320,7 +320,7 @@ def record(res: ShardResult, case, info, feats=None) -> dict:
     for k in ("ring", "ring3", "star", "chain3", "two_sends_one_peer",
               "send_depends_on_recv", "forward_bare_recv", "recv_only_via_send",
               "output_is_input", "output_is_recv", "same_array_sent_twice",
-              "send_of_input", "impl_stored", "impl_stored_recv",
+              "send_of_input", "payload_via_holder_value", "impl_stored", "impl_stored_recv",
               "zero_size_message", "same_tag_two_pairs"):
         if f.get(k):
             res.count("has:" + k)
@@ -408,4 +408,10 @@ def _forward_pred(case, failure) -> bool:
     return distsim.forwards_bare_recv(base)
 
 
-KNOWN_PREDICATES = {"forward_bare_recv": _forward_pred}
+def _holder_leak_pred(case, failure) -> bool:
+    base = {k: v for k, v in case.items() if k not in ("schedule", "hash_seeds")}
+    return distsim.holder_payload_dep_leak(base)
+
+
+KNOWN_PREDICATES = {"forward_bare_recv": _forward_pred,
+                    "holder_payload_dep_leak": _holder_leak_pred}
